@@ -312,10 +312,31 @@ def _accumulators_reset(rep, clause, f):
 # ----------------------------------------------------------------------------- .3
 
 def _xor_terms(f, target_pred):
+    defs = {}
+    multi = set()
+    for b, i, e in f.events():
+        if e.get('k') == 'decl':
+            for v in e.get('vars', []):
+                if v.get('init') is not None:
+                    if v['id'] in defs:
+                        multi.add(v['id'])
+                    defs[v['id']] = v['init']
+        if e.get('k') == 'asg' and isinstance(e.get('l'), dict) and e['l'].get('k') == 'var' and 'id' in e['l']:
+            multi.add(e['l']['id'])
+    for m in multi:
+        defs.pop(m, None)
+
+    def inline(t, depth=0):
+        if not isinstance(t, dict) or depth > 5:
+            return t
+        if t.get('k') == 'var' and t.get('vk') == 'local' and t.get('id') in defs:
+            return inline(defs[t['id']], depth + 1)
+        return {k: (inline(v, depth + 1) if isinstance(v, dict) else ([inline(x, depth + 1) if isinstance(x, dict) else x for x in v] if isinstance(v, list) else v))
+                for k, v in t.items()}
     out = []
     for b, i, e in f.events():
         if e.get('k') == 'asg' and e.get('op') == '^=' and target_pred(e.get('l')):
-            out.append(e.get('r'))
+            out.append(inline(e.get('r')))
     return out
 
 
@@ -343,6 +364,27 @@ def c3_hash_tables(fb, rep):
            len(inc['setCastleMask']) == 1 and 'castleHashKeys[#]' in inc['setCastleMask'][0], '', str(inc['setCastleMask']), P + '::setCastleMask')
     rep.ob(clause, 'K10 sibling agreement', 'setEpSquare xors out the old and xors in the new en-passant key (same table, same index shape)',
            len(inc['setEpSquare']) == 1 and 'epHashKeys[' in inc['setEpSquare'][0], '', str(inc['setEpSquare']), P + '::setEpSquare')
+    # a setter stores the new value whenever it differs from the old one: the field assignment may only be
+    # guarded by the comparison of the field with the parameter itself (a guard on derived values - e.g. on
+    # the hash-key index - silently drops changes that keep the derived value)
+    for nm, fld in (('setWhiteMove', 'whiteMove'), ('setCastleMask', 'castleMask'), ('setEpSquare', 'epSquare')):
+        f = fb.find1(P + '::' + nm)
+        par = f.d['params'][0]['n']
+        stores = [(b, i, e) for b, i, e in f.events() if (e.get('k') == 'asg' and ap(e.get('l')) == 'this.' + fld) or
+                  (e.get('k') == 'call' and cname(e).endswith('::operator=') and ap(e.get('recv')) == 'this.' + fld)]
+        ok = bool(stores)
+        why = ''
+        for b, i, e in stores:
+            g = G.guards_of(f, set(f.blocks), b)
+            for x in g:
+                x0 = x.lstrip('!').replace('this->', '')
+                norm = x0.replace(' ', '')
+                if not (fld in norm and par in norm and ('!=' in norm or '==' in norm) and norm.count(fld) + norm.count(par) >= 2 and
+                        all(tok in (fld, par, '', 'Square', 'bool', 'int') for tok in __import__('re').split(r'[^A-Za-z_]+', norm))):
+                    ok = False
+                    why = 'store guarded by %s' % g
+            w = f.path_avoiding((f.entry, -1), R.at_exit, lambda ev, _e=e: ev is _e)
+        rep.ob(clause, 'K4 guard', '%s stores the new %s whenever it differs from the old one' % (nm, fld), ok, f.where, why, f.sname)
     for nm in ('computeZobristHash', 'deSerialize'):
         f = fb.find1(P + '::' + nm)
         if rep.need(clause, f, P + '::' + nm) is None:
